@@ -2,6 +2,9 @@ import SleapVerif.Lemmas.TrackerIdentity
 import Mathlib.Algebra.Order.BigOperators.Group.List
 import Mathlib.Data.List.Dedup
 import Mathlib.Data.List.Perm.Subperm
+import Mathlib.Data.List.Sublists
+import Mathlib.Data.List.Permutation
+import Mathlib.Data.Finset.Max
 /-!
 # Hungarian matcher: optimum uniqueness under row + column dominance (C10)
 
@@ -10,6 +13,7 @@ full-size assignment uses every row (resp. column) exactly once, each of its edg
 the identity edge of the same row (resp. column) — strictly more when it differs — so a
 minimum-total-cost assignment is the identity assignment.
 -/
+set_option linter.unusedSectionVars false
 namespace SleapVerif.Tracker
 
 section sums
@@ -143,7 +147,7 @@ theorem hungarian_picks_identity' {ext : Ext R} (hext : ExtOk ext) (hopt : LsaOp
     LsaPicksIdentity ext := by
   intro m cost ident hne hrect hsome hb hdom hcov
   classical
-  obtain ⟨hv, hlenL⟩ := hext.lsa cost m hrect
+  obtain ⟨hv, hlenL⟩ := hext.lsa cost m hrect hsome
   set L := ext.lsa cost with hL
   set n := cost.length with hn
   have hnpos : 0 < n := List.length_pos_iff.2 hne
@@ -243,5 +247,104 @@ theorem hungarian_picks_identity' {ext : Ext R} (hext : ExtOk ext) (hopt : LsaOp
   exact (hfinal p).trans (hI p)
 
 end hungarian
+
+
+/-! ## a solver satisfying scipy's contract exists (brute force over all assignments) -/
+
+section lsaWitness
+variable {R : Type} [Field R] [LinearOrder R] [IsStrictOrderedRing R]
+open Classical
+
+/-- all index pairs of an `n × k` matrix -/
+def pairsOf (n k : Nat) : List (Nat × Nat) :=
+  (List.range n).flatMap fun i => (List.range k).map fun j => (i, j)
+
+/-- every arrangement of every sub-collection of index pairs -/
+def candidates (n k : Nat) : List (List (Nat × Nat)) :=
+  (pairsOf n k).sublists.flatMap List.permutations
+
+theorem mem_candidates {n k : Nat} {ms : List (Nat × Nat)} (hv : MatchValid n k ms) :
+    ms ∈ candidates n k := by
+  have hnd : ms.Nodup := List.Nodup.of_map _ hv.rows
+  have hsub : ms ⊆ pairsOf n k := by
+    intro p hp
+    simp only [pairsOf, List.mem_flatMap, List.mem_range, List.mem_map]
+    exact ⟨p.1, (hv.bounds p hp).1, p.2, (hv.bounds p hp).2, rfl⟩
+  obtain ⟨l, hperm, hsl⟩ := List.subperm_of_subset hnd hsub
+  simp only [candidates, List.mem_flatMap]
+  exact ⟨l, List.mem_sublists.2 hsl, List.mem_permutations.2 hperm.symm⟩
+
+def diagAssign (n k : Nat) : List (Nat × Nat) := (List.range (min n k)).map fun i => (i, i)
+
+theorem diagAssign_valid (n k : Nat) :
+    MatchValid n k (diagAssign n k) ∧ (diagAssign n k).length = min n k := by
+  refine ⟨⟨?_, ?_, ?_⟩, by simp [diagAssign]⟩
+  · simpa [diagAssign, List.map_map, Function.comp_def] using List.nodup_range
+  · simpa [diagAssign, List.map_map, Function.comp_def] using List.nodup_range
+  · intro p hp
+    simp only [diagAssign, List.mem_map, List.mem_range] at hp
+    obtain ⟨i, hi, rfl⟩ := hp
+    exact ⟨by simp only; omega, by simp only; omega⟩
+
+/-- the full-size one-to-one assignments of an `n × k` matrix, as a finite set -/
+noncomputable def feasibleSet (n k : Nat) : Finset (List (Nat × Nat)) :=
+  ((candidates n k).filter (fun ms => decide (MatchValid n k ms ∧ ms.length = min n k))).toFinset
+
+theorem mem_feasibleSet {n k : Nat} {ms : List (Nat × Nat)} :
+    ms ∈ feasibleSet n k ↔ MatchValid n k ms ∧ ms.length = min n k := by
+  simp only [feasibleSet, List.mem_toFinset, List.mem_filter, decide_eq_true_eq]
+  exact ⟨fun h => h.2, fun h => ⟨mem_candidates h.1, h⟩⟩
+
+theorem feasibleSet_nonempty (n k : Nat) : (feasibleSet n k).Nonempty :=
+  ⟨diagAssign n k, mem_feasibleSet.2 (diagAssign_valid n k)⟩
+
+/-- brute-force `linear_sum_assignment`: a minimiser of the total cost over all full-size
+    one-to-one assignments (exists because the set is finite and non-empty) -/
+noncomputable def bruteLsa (M : List (List (Option R))) : List (Nat × Nat) :=
+  Classical.choose (Finset.exists_min_image (feasibleSet M.length (M.headD []).length) (sumCost M)
+    (feasibleSet_nonempty _ _))
+
+theorem bruteLsa_spec (M : List (List (Option R))) :
+    bruteLsa M ∈ feasibleSet M.length (M.headD []).length ∧
+    ∀ x ∈ feasibleSet M.length (M.headD []).length, sumCost M (bruteLsa M) ≤ sumCost M x :=
+  Classical.choose_spec (Finset.exists_min_image (feasibleSet M.length (M.headD []).length) (sumCost M)
+    (feasibleSet_nonempty _ _))
+
+theorem headD_length_of_rect (M : List (List (Option R))) (k : Nat) (h : ∀ row ∈ M, row.length = k)
+    (hne : M ≠ []) : (M.headD []).length = k := by
+  cases M with
+  | nil => exact absurd rfl hne
+  | cons r rs => simpa using h r (by simp)
+
+/-- `bruteLsa` meets the `lsa` part of `ExtOk` -/
+theorem bruteLsa_valid (M : List (List (Option R))) (k : Nat) (h : ∀ row ∈ M, row.length = k) :
+    MatchValid M.length k (bruteLsa M) ∧ (bruteLsa M).length = min M.length k := by
+  obtain ⟨hv, hl⟩ := mem_feasibleSet.1 (bruteLsa_spec M).1
+  by_cases hne : M = []
+  · subst hne
+    have hnil : bruteLsa ([] : List (List (Option R))) = [] := by
+      cases hb : bruteLsa ([] : List (List (Option R))) with
+      | nil => rfl
+      | cons p ps => rw [hb] at hv; exact absurd (hv.bounds p (by simp)).1 (by simp)
+    rw [hnil]
+    exact ⟨⟨by simp, by simp, by simp⟩, by simp⟩
+  · rw [headD_length_of_rect M k h hne] at hv hl
+    exact ⟨hv, hl⟩
+
+/-- `bruteLsa` is optimal in the sense of `LsaOptimal` -/
+theorem bruteLsa_optimal (M : List (List (Option R))) (k : Nat) (h : ∀ row ∈ M, row.length = k)
+    (ms' : List (Nat × Nat)) (hv : MatchValid M.length k ms') (hl : ms'.length = min M.length k) :
+    sumCost M (bruteLsa M) ≤ sumCost M ms' := by
+  by_cases hne : M = []
+  · subst hne
+    have h1 := (bruteLsa_valid ([] : List (List (Option R))) k h).2
+    have e1 : bruteLsa ([] : List (List (Option R))) = [] := List.length_eq_zero_iff.1 (by simpa using h1)
+    have e2 : ms' = [] := List.length_eq_zero_iff.1 (by simpa using hl)
+    rw [e1, e2]
+  · apply (bruteLsa_spec M).2
+    rw [headD_length_of_rect M k h hne]
+    exact mem_feasibleSet.2 ⟨hv, hl⟩
+
+end lsaWitness
 
 end SleapVerif.Tracker
